@@ -24,8 +24,8 @@ func verifChannel(n *RawNode) reflect.Value {
 }
 
 // VerifRouters returns the amount of per-call bookkeeping the client keeps for the node: the
-// total number of entries in the maps of the node's channel (response routers and whatever
-// other per-message tables exist).
+// total number of entries in the maps of the node's channel that are keyed by a message id
+// (response routers and whatever other per-message tables exist).
 func VerifRouters(n *RawNode) int {
 	c := verifChannel(n)
 	if !c.IsValid() {
@@ -33,8 +33,12 @@ func VerifRouters(n *RawNode) int {
 	}
 	total := 0
 	for i := 0; i < c.NumField(); i++ {
+		// per-message tables are keyed by the message id (an unsigned integer); other maps are not per-call state
 		if f := c.Field(i); f.Kind() == reflect.Map {
-			total += f.Len()
+			switch f.Type().Key().Kind() {
+			case reflect.Uint64, reflect.Uint32, reflect.Uint:
+				total += f.Len()
+			}
 		}
 	}
 	return total
